@@ -336,8 +336,9 @@ class LQR(nn.Module):
                 self.system.set_refpoint(state=self.x_traj[...,t,:],
                                          input=self.u_traj[...,t,:],
                                          t=torch.tensor(t*dt))
-                A = self.system.A.squeeze(-2)
-                B = self.system.B.squeeze(-2)
+                A, B = self.system.A, self.system.B
+                if A.ndim == 4: # Jacobians of a batch-of-one nonlinear system: (1, n, 1, n)
+                    A, B = A.squeeze(-2), B.squeeze(-2)
                 F = torch.cat((A, B), dim=-1)
                 Qt = self.Q[...,t,:,:] + F.mT @ V @ F
                 qt = p[...,t,:] + bmv(F.mT, v)
